@@ -440,7 +440,7 @@ Definition tok_wf (t : tok) : bool :=
 (* 'j' 's' 'o' 'n': the bytes that can continue a marker begun in the
    previous token *)
 Definition cont_byte (b : N) : bool :=
-  (b =? 106) || (b =? 115) || (b =? 111) || (b =? 110).
+  (106 =? b) || (115 =? b) || (111 =? b) || (110 =? b).
 
 Definition starts_safe (t : tok) : bool :=
   match render_tok t with
@@ -463,3 +463,26 @@ Fixpoint adjacent_ok (m : msg) : bool :=
   end.
 
 Definition msg_wf (m : msg) : bool := forallb tok_wf m && adjacent_ok m.
+
+(* an error value all of whose texts are well-formed one by one *)
+Fixpoint err_wf (e : err) : bool :=
+  match e with
+  | Sentinel _ => true
+  | Plain t => msg_wf t
+  | Status _ m => msg_wf m
+  | Wrap t e' => msg_wf t && err_wf e'
+  | Embed o e' => no_esc o && err_wf e'
+  end.
+
+(* ExtractObject's search on the rendered message: the bytes between the two markers *)
+Definition middle_bytes (s : bytes) : option bytes :=
+  match split_bytes s with
+  | [_; mid; _] => Some mid
+  | _ => None
+  end.
+
+Definition middle_tokens (m : msg) : option msg :=
+  match split_marker m with
+  | [_; mid; _] => Some mid
+  | _ => None
+  end.
